@@ -125,6 +125,21 @@ def handle (op : String) (a : List String) (impl : String) : Option Verdict :=
       if impl.startsWith "OK " then pure (cmpArr (impl.drop 3).toString b.shape b.data (some floor) optTag)
       else pure (.bad s!"OK {showNats b.shape}|{showXRs b.data}")
     | .error e => pure (cmpStr impl (viewErrRender e) s!"{kind}-error")
+  | "c13.viewtext", [sh, bs, rm, kp, ps, pi, mk, nm, pr] => do
+    let shape ← parseNats sh; let data ← parseBits bs; let p ← pr.toNat?
+    let rm ← optNats rm; let kp ← optNats kp; let ps ← optNats ps; let pi ← optNats pi
+    let o : ViewOpts := { remove := rm, keep := kp, projectShape := ps, projectIndividuals := pi, mask := mk == "1", normalize := nm == "1" }
+    match viewRun o (⟨data, shape⟩ : Arr XR) with
+    | .ok b =>
+      let floor : Rat := if o.normalize then 1 else sumAbs data
+      let finite := b.data.all XR.isFinite
+      if !impl.startsWith "OK " then pure (.bad s!"OK {showNats b.shape}|{showXRs b.data}")
+      else if !finite then pure (.ok "viewtext-nonfinite")
+      else
+        let text := unescape (impl.drop 3).toString
+        if cmpTextNumeric text b.shape (b.data.map ratOfXR) p floor then pure (.ok s!"viewtext-p{p}-m{if rm.isSome || kp.isSome then 1 else 0}p{if ps.isSome || pi.isSome then 1 else 0}k{mk}n{nm}")
+        else pure (.bad s!"text of {showNats b.shape}|{showXRs b.data} at precision {p}")
+    | .error e => pure (cmpStr impl (viewErrRender e) "viewtext-error")
   | _, _ =>
     match op.splitOn "." with
     | [p, "mem"] => handleMem a impl p
